@@ -41,6 +41,11 @@ Record obs := mkObs {
 Definition ok (l : list Z) (evs : list event) : obs := mkObs (Ok tt) l evs None.
 Definition raise (e : exn) (l : list Z) : obs := mkObs (Raise e) l [] None.
 
+(* Python equality between items: the atoms 300+i stand for the float i.0, which equals the int i
+   (list.index / list.remove compare with ==, so they find an equal item that is not the same value) *)
+Definition canon_atom (a : Z) : Z := if (300 <=? a) && (a <? 400) then a - 300 else a.
+Definition py_eq (a b : Z) : bool := canon_atom a =? canon_atom b.
+
 (* the ordering list.sort uses: the items themselves, or their keys (equal keys keep their order) *)
 Definition sort_key (m x : Z) : Z := if m =? 0 then x else x mod m.
 Definition key_leb (m a b : Z) : bool := sort_key m a <=? sort_key m b.
@@ -155,10 +160,10 @@ Section WithValidator.
         | Ok (item, l') => mkObs (Ok tt) l' [(I nidx, [item], [])] (Some item)
         end
     | Remove v =>                                          (* l.437-464: the raw value is searched *)
-        match index_of Z.eqb v l with
+        match index_of py_eq v l with
         | None => raise ValueError l                        (* super().remove raises *)
         | Some n =>
-            match nth_error l n, remove Z.eqb l v with
+            match nth_error l n, remove py_eq l v with
             | Some x, Ok l' => ok l' [(I (Z.of_nat n), [x], [])]
             | _, Raise e => raise e l
             | None, Ok _ => raise OtherError l             (* unreachable *)
@@ -214,13 +219,14 @@ Section WithValidator.
 End WithValidator.
 
 (* The validators of the correspondence harness (atoms: 0..99 the ints, 100+i the
-   string "i", >= 200 objects that no Int/CInt validator accepts). *)
+   string "i", 200.. objects that no Int/CInt validator accepts, 300+i the float i.0). *)
 Inductive vkind := VAll | VInt | VCInt | VInc.   (* VInc: a non-idempotent conversion, x -> x + 1 on 0..89 *)
 Definition vld_of (k : vkind) (x : Z) : option Z :=
   match k with
   | VAll => Some x
   | VInt => if (0 <=? x) && (x <? 100) then Some x else None
   | VCInt => if (0 <=? x) && (x <? 100) then Some x
-             else if (100 <=? x) && (x <? 200) then Some (x - 100) else None
+             else if (100 <=? x) && (x <? 200) then Some (x - 100)
+             else if (300 <=? x) && (x <? 400) then Some (x - 300) else None
   | VInc => if (0 <=? x) && (x <? 90) then Some (x + 1) else None
   end.
